@@ -189,8 +189,16 @@ def s_status( ctx ):
             if not disp:
                 raise AnalysisError( '%s: no dispatch node for the request try' % qn )
             disp = disp[0]
+            # a handler that itself stores a failure constant ( a statement of its own body, ahead of anything that renders ) converts whatever
+            # the status was when the exception was raised
+            hx = [ x for x in t.handlers if x.type is not None and dotted( x.type ) == 'Exception' ][0]
+            own = [ b for b in hx.body if isinstance( b, ast.Assign ) and any( dotted( x ) == art + '.status' for x in b.targets )
+                    and isinstance( try_fold( b.value ), int ) and try_fold( b.value ) not in success and try_fold( b.value ) != 0 ]
             for p, label in cfg.pred[disp]:
                 if label != 'exc' or p not in st:
+                    continue
+                if own:
+                    res.ok( src, p.stmt if p.kind == 'stmt' else p.expr, 'may raise: the handler stores the failure status 0x%02X itself' % try_fold( own[0].value ))
                     continue
                 sv = st[p].get( 'status', TOP )
                 what = p.stmt if p.kind == 'stmt' else p.expr
@@ -2070,6 +2078,11 @@ def e_contain( ctx ):
             raise AnalysisError( 'enip_srv_tcp: `stats, connkey = stats_for( addr )` not found' )
         closes = [ s for s in outer.finalbody if pmatch( s, 'conn.close()' ) ]
         pops = [ s for s in outer.finalbody if pmatch( s, 'connections.pop( %s, None )' % CK ) or pmatch( s, 'del connections[%s]' % CK ) ]
+        # ... or the entry is removed unless another connection has meanwhile replaced it: if connections.get( connkey ) is stats: pop
+        ST = server_roles( fn ).get( 'stats' )
+        own = [ s for s in outer.finalbody if isinstance( s, ast.If ) and not s.orelse and ST is not None and pmatch( s.test, 'connections.get( %s ) is %s' % ( CK, ST )) is not None
+                and len( s.body ) == 1 and ( pmatch( s.body[0], 'connections.pop( %s, None )' % CK ) or pmatch( s.body[0], 'del connections[%s]' % CK )) ]
+        pops = pops + own
         if closes:
             res.ok( src, closes[0], 'finally: conn.close() on every exit' )
         else:
@@ -2081,7 +2094,7 @@ def e_contain( ctx ):
         # statements of the finally before conn.close() must not be able to skip it: they are logging or wrapped in try
         if closes:
             idx = outer.finalbody.index( closes[0] )
-            risky = [ s for s in outer.finalbody[:idx] if not ( isinstance( s, ast.Try ) or pmatch( s, 'connections.pop( %s, None )' % CK )
+            risky = [ s for s in outer.finalbody[:idx] if not ( isinstance( s, ast.Try ) or pmatch( s, 'connections.pop( %s, None )' % CK ) or s in own
                                                                or ( isinstance( s, ast.Expr ) and call_name( s.value ).startswith( 'log.' ))) ]
             if risky:
                 res.bad( src, risky[0], risky[0], 'a statement that may raise precedes conn.close() in the finally' )
@@ -3616,4 +3629,85 @@ def p_routefirst( ctx ):
                  'inside a Multiple Service Packet ( or on a connection ) a Read / Write Tag for a tag bound to another Object is served by the Message Router itself - refused with 0x05 where the same request sent alone is served' )
     else:
         res.ok( src, rt.stmt, 'every use of the request in the handler is dominated by the routing step' )
+    return res
+
+
+@rule( 'P-ONCE', props=( 'C07', 'C08' ), floor=2 )
+def p_once( ctx ):
+    """a request takes effect at most once, and a reply that cannot be rendered is still a reply.  (1) Connection_Manager.request hands a lone
+    request to an Object's request() once: every further hand-over in the handler of that try ( the stand-in re-parsed and answered by the
+    Message Router ) is barred by a flag that is False ahead of the try and set immediately before `<target>.request( data.request ... )` -
+    `assert not <flag>` ahead of it in the same block, or an `if not <flag>:` around it.  Without the bar, a request whose target failed
+    AFTER executing it ( a Multiple Service Packet whose replies cannot be rendered ) is parsed and executed a second time.  (2) The last
+    statement of Message_Router.request that renders the reply ( <data>.input = ... self.produce( <data> )) lies in a try whose catch-all
+    sets a non-zero status and renders again: what cannot be rendered ( replies beyond the reach of the UINT offsets ) is answered with an
+    error status by the Object that executed the members, not taken for an unparsable request by its caller."""
+    res = Result( 'P-ONCE' )
+    src = ctx.src( DEVICE )
+    fn = src.get( 'Connection_Manager.request' )
+    first = [ c for c in walk_no_nested( fn ) if isinstance( c, ast.Call ) and isinstance( c.func, ast.Attribute ) and c.func.attr == 'request'
+              and isinstance( c.func.value, ast.Name ) and c.args and dotted( c.args[0] ) == 'data.request' ]
+    if len( first ) != 1:
+        raise AnalysisError( 'Connection_Manager.request: %d dispatches <target>.request( data.request ... )' % len( first ))
+    st = stmt_of( src, first[0] )
+    blk = None
+    par = src.parent.get( st )
+    for fld in ( 'body', 'orelse', 'finalbody' ):
+        if st in getattr( par, fld, [] ):
+            blk = getattr( par, fld )
+    tries = [ a for a in src.ancestors( first[0] ) if isinstance( a, ast.Try ) and any( first[0] is x for b in a.body for x in ast.walk( b )) ]
+    if blk is None or not tries:
+        raise AnalysisError( 'Connection_Manager.request: block / try of the dispatch not found' )
+    again = [ c for t in tries for h in t.handlers for c in ast.walk( h ) if isinstance( c, ast.Call ) and isinstance( c.func, ast.Attribute ) and c.func.attr == 'request'
+              and isinstance( c.func.value, ast.Name ) and c.args ]
+    if not again:
+        res.ok( src, first[0], 'Connection_Manager.request: the handler of the dispatch hands nothing to an Object a second time' )
+    else:
+        i = blk.index( st )
+        flag = None
+        if i > 0 and isinstance( blk[i - 1], ast.Assign ) and isinstance( blk[i - 1].targets[0], ast.Name ) and try_fold( blk[i - 1].value ) is True:
+            flag = blk[i - 1].targets[0].id
+        inits = [ a for a in walk_no_nested( fn ) if flag and isinstance( a, ast.Assign ) and isinstance( a.targets[0], ast.Name ) and a.targets[0].id == flag and try_fold( a.value, default=None ) is False
+                  and a.lineno < tries[-1].lineno ]
+        others = [ a for a in ast.walk( fn ) if flag and isinstance( a, ( ast.Assign, ast.AugAssign )) and any( isinstance( t, ast.Name ) and t.id == flag for t in ast.walk( a.targets[0] if isinstance( a, ast.Assign ) else a.target ))
+                   and a is not blk[i - 1] and a not in inits ]
+        if flag is None or not inits or others:
+            res.bad( src, first[0], 'Connection_Manager.request: nothing records that the request was handed to its target Object',
+                     'when the target fails after executing the request ( a Multiple Service Packet whose replies cannot be rendered ), the handler parses it again and hands it to the Message Router: every write in it is executed twice', func='Connection_Manager.request' )
+        else:
+            for c in again:
+                cs = stmt_of( src, c )
+                cpar = src.parent.get( cs )
+                cblk = next(( getattr( cpar, f_ ) for f_ in ( 'body', 'orelse', 'finalbody' ) if cs in getattr( cpar, f_, [] )), [] )
+                barred = any( isinstance( b, ast.Assert ) and pmatch( b.test, 'not %s' % flag ) is not None for b in cblk[:cblk.index( cs )] ) if cs in cblk else False
+                barred = barred or any( isinstance( a, ast.If ) and pmatch( a.test, 'not %s' % flag ) is not None and any( cs is x for b in a.body for x in ast.walk( b )) for a in src.ancestors( cs ))
+                if barred:
+                    res.ok( src, c, 'Connection_Manager.request: %s is barred once the request was handed to its target ( %s )' % ( norm_text( ast.unparse( c ))[:50], flag ))
+                else:
+                    res.bad( src, c, 'Connection_Manager.request: %s may run after the request was already handed to its target Object' % norm_text( ast.unparse( c ))[:60],
+                             'a request whose target failed after executing it is executed a second time ( a write takes effect twice; the caller is told "service not supported" )', func='Connection_Manager.request' )
+    # (2) the final rendering of Message_Router.request
+    mr = src.get( 'Message_Router.request' )
+    DATA = mr.args.args[1].arg
+    rend = [ a for a in walk_no_nested( mr ) if isinstance( a, ast.Assign ) and dotted( a.targets[0] ) == DATA + '.input'
+             and any( isinstance( c_, ast.Call ) and isinstance( c_.func, ast.Attribute ) and c_.func.attr == 'produce' for c_ in ast.walk( a.value )) ]
+    if not rend:
+        raise AnalysisError( 'Message_Router.request: %s.input = ... produce( ... ) not found' % DATA )
+    outside = [ a for a in rend if not any( isinstance( h, ast.ExceptHandler ) for h in src.ancestors( a )) ]
+    for a in outside:
+        t = [ t_ for t_ in src.ancestors( a ) if isinstance( t_, ast.Try ) and any( a is x for b in t_.body for x in ast.walk( b )) ]
+        ok = False
+        for t_ in t[:1]:
+            for h in t_.handlers:
+                if h.type is not None and dotted( h.type ) not in ( 'Exception', 'BaseException' ):
+                    continue
+                sets = [ b for b in ast.walk( h ) if isinstance( b, ast.Assign ) and dotted( b.targets[0] ) == DATA + '.status' and try_fold( b.value, default=0 ) not in ( 0, 6 ) ]
+                rer = [ b for b in ast.walk( h ) if isinstance( b, ast.Assign ) and dotted( b.targets[0] ) == DATA + '.input' ]
+                if sets and rer and not any( isinstance( x, ast.Raise ) for x in ast.walk( h )) and sets[0].lineno < rer[0].lineno:
+                    ok = True
+        if ok:
+            res.ok( src, a, 'Message_Router.request: a reply that cannot be rendered is answered with an error status by the router itself' )
+        else:
+            res.bad( src, a, 'Message_Router.request: %s is not protected' % norm_text( ast.unparse( a ))[:70],
+                     'the replies of an executed Multiple Service Packet that do not fit its UINT offsets raise out of request(): the caller takes the request for unparsable, although every member - writes included - has been executed', func='Message_Router.request' )
     return res
